@@ -348,6 +348,50 @@ def check_outcome(cls, fam, kind, n, res):
                       f"str({tag}({outcome_name(kind, n)})) raised {type(e).__name__}", wit)
     except Exception as e:
         res.observe(f"str-raises-{type(e).__name__}", f"str({tag}({outcome_name(kind, n)}))")
+    # ... by every route text is made: repr(), %-formatting, format(), an f-string, a list of responses being printed
+    for how, fn in (("repr", repr), ("%r", lambda x: "%r" % (x,)), ("%s", lambda x: "%s" % (x,)), ("format", lambda x: format(x, "")),
+                    ("f-string", lambda x: f"{x} {x!r}"), ("str-of-list", lambda x: str([x]))):
+        try:
+            if not isinstance(fn(r), str):
+                res.violation(f"C06/str-not-str/{tag}", f"{how} returned a non-string", wit)
+        except (MissingResponse, ResponseError) as e:
+            res.violation(f"C06/str-raises/{type(e).__name__}/{kind}/{how}",
+                          f"{how} of {tag}({outcome_name(kind, n)}) raised {type(e).__name__}", wit)
+            break
+        except Exception as e:
+            res.observe(f"{how}-raises-{type(e).__name__}", f"{tag}({outcome_name(kind, n)})")
+    # copies made by the standard library carry the same bus outcome: nothing received stays nothing, a framing error stays a
+    # framing error, a clean byte stays that byte - and read like the original
+    if n % 16 == 0 or kind != "clean":
+        import copy
+        import pickle
+        for how, fn in (("copy", copy.copy), ("deepcopy", copy.deepcopy), ("pickle", lambda o: pickle.loads(pickle.dumps(o)))):
+            try:
+                twin = fn(r)
+            except Exception as e:
+                res.observe(f"{how}-raises-{type(e).__name__}", tag)
+                continue
+            res.hit("clones_checked")
+
+            def outcome(x):
+                rv = x.raw_value
+                return "none" if rv is None else (("error", rv.as_integer) if rv.error else ("clean", rv.as_integer))
+
+            def reading(x):
+                try:
+                    v_ = x.value
+                    return ("ok", v_ if not isinstance(v_, frame.Frame) else ("frame", v_.as_integer, v_.error))
+                except Exception as e:
+                    return ("exc", type(e).__name__)
+            try:
+                same = type(twin) is type(r) and outcome(twin) == outcome(r) and reading(twin) == reading(r)
+                shown = f"{type(twin).__name__} outcome {outcome(twin)} value {reading(twin)}"
+            except Exception as e:
+                same, shown = False, f"reading it raised {type(e).__name__}"
+            if not same:
+                res.violation(f"C06/clone-differs/{how}/{kind}", f"{how} of {tag}({outcome_name(kind, n)}): {shown}; the original has "
+                              f"outcome {outcome(r)} value {reading(r)}", wit)
+                break
 
 
 def check_bad_args(cls, res):
